@@ -498,8 +498,14 @@ func finish(a, wa *agg, witnessed, findings []*Finding, ck check, o DriverOpts, 
 		"violations":  len(unknown),
 	}
 	eb, _ := json.MarshalIndent(ev, "", " ")
-	_ = os.MkdirAll(filepath.Join(o.Root, "evidence"), 0o755)
-	_ = os.WriteFile(filepath.Join(o.Root, "evidence", o.ID+".json"), append(eb, '\n'), 0o644)
+	// VERIF_EVIDENCE_DIR is set by ./run only when the check is linked against another
+	// checkout (VERIF_REPO, trial mutations): evidence/ holds runs against /repo only.
+	evdir := filepath.Join(o.Root, "evidence")
+	if d := os.Getenv("VERIF_EVIDENCE_DIR"); d != "" {
+		evdir = d
+	}
+	_ = os.MkdirAll(evdir, 0o755)
+	_ = os.WriteFile(filepath.Join(evdir, o.ID+".json"), append(eb, '\n'), 0o644)
 	verdict := map[int]string{0: "HELD on what was observed", 1: "VIOLATED", 2: "INCONCLUSIVE"}[rc]
 	fmt.Printf("%s %s tier=%s seed=%d: %s; evaluations=%d distinct_nontrivial=%d known_findings=%d new_signatures=%d inconclusive=%d wall=%.1fs\n",
 		o.ID, verdict, o.Tier, o.Seed, coverLine(a.cover), a.evals, distinct, nKnown, len(unknown), inconN, time.Since(start).Seconds())
